@@ -265,11 +265,20 @@ type emitter struct {
 	distinct  map[string]bool
 	viol      []common.MonitorViolation
 	violSeen  map[string]int
+	violDedup map[string]bool
 	monChecks int
 	quiet     bool // when true, cases are not emitted (monitor-only pass)
 }
 
 func (e *emitter) violate(key, desc string, input map[string]interface{}) {
+	// one report per (key, input): the same string reaches the monitors through several entry points
+	if in, ok := input["input"].(string); ok {
+		k := key + "\x00" + in
+		if e.violDedup[k] {
+			return
+		}
+		e.violDedup[k] = true
+	}
 	e.violSeen[key]++
 	if e.violSeen[key] > 5 { // keep the first few witnesses per key
 		return
@@ -1138,6 +1147,7 @@ func main() {
 		hist:     map[string]int{},
 		distinct: map[string]bool{},
 		violSeen: map[string]int{},
+		violDedup: map[string]bool{},
 	}
 
 	// subset: emit a random subset of the operations of one pair (all of them are monitored).
@@ -1165,6 +1175,14 @@ func main() {
 	corpusPairs := [][2]string{{"10", ".-5"}, {"0", ".-5"}, {"1", "+.-5"}, {"1", "-.-5"}, {"10", ".+5"}, {"10", "-.+5"}, {"0", ".-0"},
 		{"9999999999999999999999999999.999999", "9999999999999999999999999999.999999"}, {"19999999999999999999999999999.999998", "1000000"},
 		{"0", "0"}, {"2", "1"}, {"0.9999999999999999999999999999999999999", "100"}, {"10", "0.95"}, {"10.05", "0.05"}, {"1", "3"}, {"-0", "0"}, {"0", "-0"}, {"-0", "-0"}}
+	// sign-hole regression strings: parse and all four constructors
+	for _, s := range []string{".-5", "+.-5", "-.-5", ".+5", "-.+5", "+.+5", ".-0", ".+0", "-.-0", "+-.+5", "--.5", ".+5e2", ".-5e-2", "0.-5", "1.+5"} {
+		e.hist["shape:corpus"]++
+		if x := e.parse(s, true); x != nil {
+			e.unary(x, all)
+		}
+		e.constructors(s, 6, true)
+	}
 	for _, p := range corpusPairs {
 		runPair(p[0], p[1], "corpus", all, true)
 		e.constructors(p[0], 6, true)
